@@ -222,6 +222,11 @@ def payloadTy (a : Ast) (at_ : ArrayType) : TyExpr :=
      | .fixed t s => .arr (.path t.asSafeString) s
      | .variable t _ => .vec (.path t.asSafeString))
 
+/-- `matches!(&v.target, BasicType::Ident(i) if ast.generics().contains(i))`: only a named target can be generic -/
+def Ast.targetGeneric (a : Ast) : BasicType → Bool
+  | .ident i => a.isGeneric i
+  | _ => false
+
 /-- union payloads print a generic name as `name<T>` without the array wrapper (`write!(w, "{}<T>", i)`) -/
 def armTy (a : Ast) (at_ : ArrayType) : TyExpr :=
   match at_.unwrapArray with
@@ -243,7 +248,7 @@ def emitTypeDecl (a : Ast) (t : AstType) : Option TypeDecl :=
     if td.target == td.alias.unwrapArray then none
     else
       let name := td.alias.unwrapArray.asStr
-      let tgen := a.isGeneric td.target.asStr
+      let tgen := a.targetGeneric td.target
       if td.target.isOpaque then some (.typedef name true false .t)
       else
         let wrap (e : TyExpr) : TyExpr :=
